@@ -21,10 +21,110 @@ MAX_BLOCKS = 4000
 
 
 def load_known():
+    """{function path: fingerprint or None} of the tree the rules were written against"""
     if not os.path.exists(KNOWN):
         return None
     with open(KNOWN) as fh:
-        return set(json.load(fh)["fns"])
+        d = json.load(fh)["fns"]
+    if isinstance(d, list):
+        return {q: None for q in d}
+    return d
+
+
+def fingerprint(f):
+    """what a function looks like from outside its name: arity, return type, the multiset of resolved callees. Used ONLY to
+    recognise a known function that was moved or renamed (never as a verdict on its behaviour)."""
+    callees = []
+    for blk in f["blocks"]:
+        t = blk["t"]
+        if t[0] == "call":
+            callees.append((t[1].get("q") or t[1].get("decl") or "?").split("::{closure")[0])
+    return {"a": f.get("argc", 0), "r": (f.get("locals") or ["?"])[0], "c": sorted(callees), "s": f.get("impl_self"), "t": f.get("impl_trait")}
+
+
+def _similar(fp_a, fp_b):
+    if fp_a is None or fp_b is None or fp_a["a"] != fp_b["a"]:
+        return 0.0
+    import collections
+    ca, cb = collections.Counter(fp_a["c"]), collections.Counter(fp_b["c"])
+    inter = sum((ca & cb).values())
+    union = sum((ca | cb).values())
+    return 1.0 if union == 0 else inter / union
+
+
+def _last(q):
+    import re as _re
+    return _re.sub(r"<.*>$", "", q.split("::")[-1])
+
+
+def resolve_renames(crates, known):
+    """a known function that is gone + an unknown function that looks the same (same name elsewhere: moved to another impl
+    block / file / made a free function; or another name with the same body shape) = the same function. The new one is given
+    the known path (and its closures with it), every call of it is re-pointed: the rules find their anchors again."""
+    byq = {f["q"]: f for j in crates for f in j["fns"]}
+    crates_here = {j.get("crate") for j in crates}
+    def crate_of(q):
+        import re as _re
+        m_ = _re.search(r"(?:^|<|\s)(acts(?:_[a-z_]+)?)::", q)
+        return m_.group(1) if m_ else None
+    missing = [q for q, fp in known.items() if q not in byq and "{closure" not in q and fp is not None and crate_of(q) in crates_here]
+    if not missing:
+        return {}
+    newq = [q for q, f in byq.items() if q not in known and "{closure" not in q and "{promoted" not in q and f.get("defkind") in ("Fn", "AssocFn") and not f.get("exp")]
+    ren = {}
+    taken = set()
+    for n in newq:
+        fpn = fingerprint(byq[n])
+        same = [(m, _similar(known[m], fpn)) for m in missing if m not in taken and _last(m) == _last(n)]
+        same = [(m, s_) for m, s_ in same if s_ >= 0.3]
+        pick = None
+        if len(same) == 1:
+            pick = same[0][0]
+        elif not same:
+            other = [(m, _similar(known[m], fpn)) for m in missing if m not in taken]
+            other = [(m, s_) for m, s_ in other if s_ >= 0.9 and len(known[m]["c"]) >= 4]
+            if len(other) == 1:
+                pick = other[0][0]
+        if pick:
+            ren[n] = pick
+            taken.add(pick)
+    if not ren:
+        return {}
+
+    def rn(q):
+        if not isinstance(q, str):
+            return q
+        for n, m in ren.items():
+            if q == n:
+                return m
+            if q.startswith(n + "::{"):
+                return m + q[len(n):]
+        return q
+
+    def walk(x):
+        # closure aggregates ["closure", q, ops] and callee dicts {"q": ..}
+        if isinstance(x, dict):
+            if "q" in x:
+                x["q"] = rn(x["q"])
+            for v in x.values():
+                walk(v)
+        elif isinstance(x, list):
+            if len(x) >= 2 and x[0] in ("closure", "coroutine", "coroutine_closure") and isinstance(x[1], str):
+                x[1] = rn(x[1])
+            for v in x:
+                walk(v)
+    for j in crates:
+        for f in j["fns"]:
+            oldq = f["q"]
+            f["q"] = rn(oldq)
+            if f["q"] != oldq and oldq in ren:
+                fp = known[ren[oldq]]
+                f["impl_self"] = fp.get("s")
+                f["impl_trait"] = fp.get("t")
+            walk(f["blocks"])
+            for pr in f.get("promoted", []):
+                walk(pr["blocks"])
+    return ren
 
 
 def _place(p, L):
@@ -119,12 +219,67 @@ def inline_call(cj, b, hj):
     return cj
 
 
+def _adopt_closures(crates, byq, f, hq):
+    """closures defined in an inlined helper become closures of the caller (`helper::{closure#k}` -> `caller::{closure#K+k}`,
+    nested ones with them): rules and tables name closures by their enclosing function"""
+    import re as _re
+    pref = hq + "::{closure#"
+    used = set()
+    for blk in f["blocks"]:
+        for st in blk["s"]:
+            if st[0] == "A" and isinstance(st[2], list) and st[2] and st[2][0] in ("closure", "coroutine", "coroutine_closure") and isinstance(st[2][1], str):
+                used.add(st[2][1])
+    mine = sorted(q for q in used if q.startswith(pref))
+    if not mine:
+        return f
+    have = [int(m.group(1)) for q in byq for m in [_re.match(_re.escape(f["q"]) + r"::\{closure#(\d+)\}$", q)] if m]
+    nxt = (max(have) + 1) if have else 0
+    # keep the helper's own numbering order
+    def num(q):
+        m = _re.match(_re.escape(pref) + r"(\d+)\}", q)
+        return int(m.group(1)) if m else 0
+    mapping = {}
+    for q in sorted(mine, key=num):
+        mapping[q] = "%s::{closure#%d}" % (f["q"], nxt)
+        nxt += 1
+
+    def rn(q):
+        for a, b in mapping.items():
+            if q == a:
+                return b
+            if q.startswith(a + "::{"):
+                return b + q[len(a):]
+        return q
+    # copies of the closure bodies (and of closures nested in them) under the new names
+    for j in crates:
+        add = []
+        for g in j["fns"]:
+            if any(g["q"] == a or g["q"].startswith(a + "::{") for a in mapping):
+                ng = copy.deepcopy(g)
+                ng["q"] = rn(g["q"])
+                for blk in ng["blocks"]:
+                    for st in blk["s"]:
+                        if st[0] == "A" and isinstance(st[2], list) and st[2] and st[2][0] in ("closure", "coroutine", "coroutine_closure") and isinstance(st[2][1], str):
+                            st[2][1] = rn(st[2][1])
+                if ng["q"] not in byq:
+                    add.append(ng)
+                    byq[ng["q"]] = ng
+        j["fns"] += add
+    f = copy.deepcopy(f)
+    for blk in f["blocks"]:
+        for st in blk["s"]:
+            if st[0] == "A" and isinstance(st[2], list) and st[2] and st[2][0] in ("closure", "coroutine", "coroutine_closure") and isinstance(st[2][1], str):
+                st[2][1] = rn(st[2][1])
+    return f
+
+
 def apply(crates):
     """crates: the loaded fact JSONs (modified in place: callers of new helpers get the helper bodies inlined).
     Returns {caller q: [helper q, ..]} for the report."""
     known = load_known()
     if known is None:
         return {}
+    renamed = resolve_renames(crates, known)
     byq = {}
     for j in crates:
         for f in j["fns"]:
@@ -132,8 +287,10 @@ def apply(crates):
     new = {q for q, f in byq.items() if q not in known and "{closure" not in q and "{promoted" not in q and "{constant" not in q
            and f.get("defkind") in ("Fn", "AssocFn") and not f.get("exp")}
     if not new:
-        return {}
+        return ({"(renamed)": ["%s -> %s" % (a, b) for a, b in renamed.items()]} if renamed else {})
     done = {}
+    if renamed:
+        done["(renamed)"] = ["%s -> %s" % (a, b) for a, b in renamed.items()]
     for _ in range(MAX_ROUNDS):
         changed = False
         for j in crates:
@@ -149,6 +306,7 @@ def apply(crates):
                     if len(h["blocks"]) + len(f["blocks"]) > MAX_BLOCKS:
                         continue
                     f = inline_call(f, bi, h)
+                    f = _adopt_closures(crates, byq, f, hq)
                     done.setdefault(f["q"], []).append(hq)
                     changed = True
                 j["fns"][idx] = f
@@ -173,5 +331,5 @@ def apply(crates):
     gone = inlined - still
     if gone:
         for j in crates:
-            j["fns"] = [f for f in j["fns"] if f["q"] not in gone]
+            j["fns"] = [f for f in j["fns"] if f["q"] not in gone and not any(f["q"].startswith(g_ + "::{closure") for g_ in gone)]
     return done
